@@ -746,3 +746,71 @@ func firstDiff(got, want map[string][]byte) string {
 	}
 	return ""
 }
+
+// One block, several children one after another: the first creates a small content, each later one takes a live key
+// away, puts it back with the value it had, changes something else, and is merged. After every merge the block (warm
+// and through a cold clone) reads the model. What a child records about nodes it replaced and re-created must not, in
+// whatever order the merge applies it, remove a node the result needs.
+func TestRemoveAndPutBackAcrossChildren(t *testing.T) {
+	ev.Rapid(t, 500, 8000)
+	rapid.Check(t, func(rt *rapid.T) {
+		base := util.NewMemoryNodeDB()
+		sc := statecache.NewStateCache()
+		bc := statecache.NewBlockCache(sc, statecache.Block{Round: 1, Hash: "b1"})
+		version := int64(gen.Pick(rt, []int{0, 1, 2}, "version"))
+		block := util.NewMerklePatriciaTrie(util.NewLevelNodeDB(util.NewMemoryNodeDB(), base, false), util.Sequence(version), nil, statecache.NewTransactionCache(bc))
+		child := func() *util.MerklePatriciaTrie {
+			return util.NewMerklePatriciaTrie(util.NewLevelNodeDB(util.NewMemoryNodeDB(), block.GetNodeDB(), false), block.GetVersion(), block.GetRoot(), statecache.NewTransactionCache(bc))
+		}
+		model := map[string][]byte{}
+		var used []string
+		var log []string
+		check := func(when string) {
+			for name, tr := range map[string]*util.MerklePatriciaTrie{"the block": block, "a cold clone of the block": util.CloneMPT(block)} {
+				got, err := mptkit.Content(tr)
+				if err != nil || !mptkit.EqualContent(got, model) {
+					rt.Fatalf("%s: %s reads %s (%v), the model is %s\nsteps: %v", when, name, mptkit.Show(got), err, mptkit.Show(model), log)
+				}
+			}
+			if want := refmpt.Root(model, version); !bytes.Equal(block.GetRoot(), want) {
+				rt.Fatalf("%s: block root %x, reference root of its content %x\nsteps: %v", when, block.GetRoot(), want, log)
+			}
+		}
+		first := child()
+		ops := mptkit.GenOpsP(rt, model, &used, gen.Uniform(rt, 3, 10, "nfirst"), 3, 10, "first")
+		if err := mptkit.Apply(first, ops); err != nil {
+			rt.Fatalf("HARNESS: %v", err)
+		}
+		log = append(log, fmt.Sprintf("child 0: %v", ops))
+		if err := block.MergeMPTChanges(first); err != nil {
+			rt.Fatalf("merge of the first child: %v", err)
+		}
+		check("after the first merge")
+		putBacks := 0
+		for ci := 1; ci <= gen.Uniform(rt, 1, 4, "nchildren"); ci++ {
+			c := child()
+			live := mptkit.SortedKeys(model)
+			if len(live) == 0 {
+				break
+			}
+			k := gen.Pick(rt, live, "putback")
+			if _, err := c.Delete(util.Path(k)); err != nil {
+				rt.Fatalf("child %d: delete %q: %v", ci, k, err)
+			}
+			if _, err := mptkit.InsertReused(c, k, model[k]); err != nil {
+				rt.Fatalf("child %d: put back %q: %v", ci, k, err)
+			}
+			other := mptkit.GenOpsP(rt, model, &used, gen.Uniform(rt, 1, 2, "nother"), 3, 25, fmt.Sprintf("other%d", ci))
+			if err := mptkit.Apply(c, other); err != nil {
+				rt.Fatalf("HARNESS: %v", err)
+			}
+			log = append(log, fmt.Sprintf("child %d: del(%q) ins(%q, same value) %v", ci, k, k, other))
+			putBacks++
+			if err := block.MergeMPTChanges(c); err != nil {
+				rt.Fatalf("merge of child %d: %v\nsteps: %v", ci, err, log)
+			}
+			check(fmt.Sprintf("after the merge of child %d", ci))
+		}
+		ev.Case(fmt.Sprint(log), putBacks >= 1, "remove-and-put-back-across-children")
+	})
+}
